@@ -29,6 +29,7 @@ package proj
 //@   requires [nonnil] sr != nil && sr2 != nil
 //@   ensures [same_datum_type] result && sr.datum != nil && sr2.datum != nil ==> sr.datum.datum_type == sr2.datum.datum_type
 //@   ensures [same_datum_code] result ==> sr.DatumCode == sr2.DatumCode
+//@   ensures [same_param_count] result ==> len(sr.DatumParams) == len(sr2.DatumParams)
 //@   modifies nothing
 
 //@ func Parse
